@@ -3,6 +3,7 @@ module github.com/notaryproject/notation-go/verifharness
 go 1.23.0
 
 require (
+	github.com/anishathalye/porcupine v1.3.0
 	github.com/fxamacker/cbor/v2 v2.8.0
 	github.com/notaryproject/notation-core-go v1.3.0
 	github.com/notaryproject/notation-go v0.0.0-00010101000000-000000000000
